@@ -28,21 +28,21 @@ def steps(job):
     maxn = md.options["maxNesting"]
     out = []
     cur = doc
-    base = A.parse(md, cur)
+    base = A.parse(md, cur, kidsw=True)
     for op in ops:
         if op["op"] == "concat_leaf":
             cur = cur + "\nzz\n"
-            base = A.parse(md, cur)
+            base = A.parse(md, cur, kidsw=True)
             continue
         if op["op"] == "quote":
             nxt = A.quote(cur)
-            der = A.parse(md, nxt)
+            der = A.parse(md, nxt, kidsw=True)
             out.append({"op": "quote", "maxn": maxn, "a": {}, "base": base, "der": der, "_doc": cur, "_op": op})
         else:
             if cur == "":
                 break
             nxt = A.listwrap(cur, op["marker"], op["w"])
-            der = A.parse(md, nxt)
+            der = A.parse(md, nxt, kidsw=True)
             out.append({"op": "list", "maxn": maxn, "a": A.list_args(op), "base": base, "der": der, "_doc": cur, "_op": op})
         cur, base = nxt, der
     return out
